@@ -169,7 +169,8 @@ def exec_state(df, st, emb, vs, part, scratch, sid=0):
                 return
             field = build_field(df, f, emb, vs, dims=dims, with_subs=False)
         else:
-            part.violation(key("construct", kind, _dy(emb)), f"Field construction raised {type(ex).__name__}", wit(exc=repr(ex)))
+            part.note("construct-failed")      # building the field is the property's precondition (C01/C02), not its subject
+            part.sample({"construct-failed": wit(exc=repr(ex))})
             return
     ncell = int(np.prod(m["n"]))
     E = expected_vals(f, vs)
@@ -266,7 +267,7 @@ def exec_state(df, st, emb, vs, part, scratch, sid=0):
             G = st["file"]["grid"]
             rel = obs["v"]["rel"]
             g2, form = c16_vtk.read_grid(path)
-            if form != r:
+            if form != obs["v"]["form"]:
                 part.violation(key("C16_FileForm", "write", r), "file is not in the requested representation", wit(got=form))
             xs, names, A = observe_grid(g2)
             xs0 = [np.fromiter(getattr(field.mesh.vertices, dn), float) for dn in field.mesh.region.dims]
@@ -435,7 +436,10 @@ def gen_trace(df, rnd, tid, embs, scratch):
         field = build_field(df, f, emb, vs)
     except Exception:
         f["subs"] = []   # aligned subregions refused at this scale (D18, C14)
-        field = build_field(df, f, emb, vs)
+        try:
+            field = build_field(df, f, emb, vs)
+        except Exception as exc:
+            raise ConstructFailed(repr(exc))
     ev = []
     g = field.to_vtk()
     xs, names, A = observe_grid(g)
@@ -474,16 +478,23 @@ def gen_trace(df, rnd, tid, embs, scratch):
             e = {"k": "loc", "p": p, "id": int(cid), "val": [], "vf": -1, "n2": -1}
         ev.append(e)
     for _ in range(rnd.choice([1, 2])):
-        r = rnd.choice(["bin", "txt", "xml"])
+        r = rnd.choice(["bin", "txt", "xml", "bin8"])
         savesub = rnd.random() < 0.8 or not f["subs"]
         rel = "Dig10" if r == "txt" else "Same"
         path = tmp_name(scratch, f"t{tid}")
         try:
-            field.to_file(path, representation=r, save_subregions=savesub)
-            _, form = c16_vtk.read_grid(path)
-            side = os.path.exists(path + ".subregions.json")
-            ok, back = read_back(df, path)
-            e = {"k": "rt", "repr": r, "savesub": savesub, "form": form, "side": side, "ok": ok, "rel": rel, "back": {}}
+            try:
+                field.to_file(path, representation=r, save_subregions=savesub)
+                wrote = True
+            except Exception as exw:
+                wrote, back = False, exw
+            if wrote:
+                _, form = c16_vtk.read_grid(path)
+                side = os.path.exists(path + ".subregions.json")
+                ok, back = read_back(df, path)
+            else:
+                form, side, ok = {"bin8": "bin"}.get(r, r), bool(savesub and f["subs"]), False
+            e = {"k": "rt", "repr": r, "savesub": savesub, "form": form, "side": side, "ok": ok, "rel": rel, "back": {}, "wrote": wrote}
             if ok:
                 reg = back.mesh.region
                 rexact = rel_ok(rel, reg.pmin, field.mesh.region.pmin) and rel_ok(rel, reg.pmax, field.mesh.region.pmax)
@@ -572,6 +583,8 @@ def verdict_key(clause, t, e):
             cond = r
         if op == "read-raises":
             cond += ":" + e.get("exct", "")
+            if not e.get("wrote", True):
+                op = "write-raises"
         if op == "labels" and t["fld"]["nv"] == 1 and t["fld"]["labels"]:
             cond = "scalar-labelled"
         return f"{c}/{op}/{cond}"
@@ -583,14 +596,34 @@ def verdict_key(clause, t, e):
     return f"{clause}/{e['k']}/{'dyadic' if t['dy'] else 'real'}"
 
 
+class ConstructFailed(Exception):
+    """the random driver could not even build its field (precondition of the property, C01/C02's subject)"""
+
+
+def core_safe(ctx, fn, *args):
+    """a library call that raises inside the random driver is a finding about the library, not a harness crash"""
+    import traceback
+
+    try:
+        return fn(*args)
+    except core._tlc.MachineryError:
+        raise
+    except ConstructFailed:
+        ctx.notes["T:construct-failed"] = ctx.notes.get("T:construct-failed", 0) + 1
+        return None
+    except Exception as ex:
+        ctx.violation(f"C16_LibraryRaises/T/{type(ex).__name__}", "the library raised inside the random driver",
+                      {"channel": "T", "exc": repr(ex), "traceback": traceback.format_exc()[-1500:]})
+        return None
+
+
 def run_traces(ctx, df, ntraces, embs):
     rnd = random.Random(ctx.seed * 7919 + 16)
     traces = []
     for t in range(ntraces):
-        if t % 5 == 4:
-            traces.append(gen_legacy_trace(df, rnd, t + 1, embs, ctx.scratch))
-        else:
-            traces.append(gen_trace(df, rnd, t + 1, embs, ctx.scratch))
+        tr = core_safe(ctx, gen_legacy_trace if t % 5 == 4 else gen_trace, df, rnd, t + 1, embs, ctx.scratch)
+        if tr is not None:
+            traces.append(tr)
     r, verdicts, _ = ctx.trace_check("C16Trace", "C16Trace.cfg", traces)
     expect = sum(len(t["ev"]) + 1 for t in traces)
     if r.distinct != expect:
@@ -611,6 +644,11 @@ def run_traces(ctx, df, ntraces, embs):
     ctx.sample({"channel": "T", "trace": {k: (v if k != "ev" else v[:3]) for k, v in traces[0].items()}})
 
 
+def guard_construct(ctx, ncases):
+    if ctx.notes.get("construct-failed", 0) > 0.05 * ncases:
+        raise core._tlc.MachineryError(f"{ctx.notes['construct-failed']} of {ncases} cases could not even be constructed")
+
+
 def run(ctx):
     df = core.import_library()
     embs = embed.for_tier(ctx.tier, ctx.seed)
@@ -623,7 +661,14 @@ def run(ctx):
         for a in ("to_vtk", "write", "read", "legacy_write"):
             if a not in acts:
                 raise core._tlc.MachineryError(f"action {a} never fired in the model")
-        work = [(k, e) for k in range(len(states)) for e in range(len(embs))]
+        # to_vtk states run under every embedding; in the thorough tier the file states (write / read) run under a
+        # rotating third of them (file I/O dominates the replay; every embedding still meets every kind of state)
+        def embs_for(k):
+            if ctx.tier == "quick" or states[k]["act"][0] == "to_vtk":
+                return range(len(embs))
+            return [(k + j * 3) % len(embs) for j in range(max(1, len(embs) // 3))]
+
+        work = [(k, e) for k in range(len(states)) for e in embs_for(k)]
         scratch = ctx.scratch
 
         def chunk(items):
@@ -637,6 +682,7 @@ def run(ctx):
             return part
 
         ctx.pmap(chunk, work)
+        guard_construct(ctx, len(work))
     run_traces(ctx, df, 400 if ctx.tier == "quick" else 4000, embs)
     ctx.assumptions += [
         "TLC explores the bounded configuration space of spec/C16.tla completely (bounds in MC_C16.tla)",
